@@ -63,6 +63,27 @@ func (x *fnCtx) rederive(st *State, fr *Frame, in ssa.Instruction, v ssa.Value) 
 		if i.Op != token.MUL && i.Op != token.ARROW {
 			return x.unop(st, fr, i)
 		}
+		if i.Op == token.MUL && x.writes["*"] && fr.isTop {
+			// a load of immutable / stable / private state that this function never writes has
+			// its entry value everywhere, whatever the callees do
+			p := x.getVal(st, fr, i.X)
+			a := x.addrOf(p)
+			if a.Kind == AObj {
+				base, _ := heapKeyStruct(a.Root, a.Path)
+				all := true
+				for _, l := range layout(a.Elem) {
+					n := base + l.Suffix
+					if !stableHeapNames[n] || x.writes[n] {
+						all = false
+					}
+				}
+				if all && len(layout(a.Elem)) > 0 {
+					lv := x.load(st, a)
+					lv.Src = a
+					return lv
+				}
+			}
+		}
 		if i.Op == token.MUL && !x.writes["*"] && fr.isTop {
 			// a load whose heap component is not written inside the current loop, and all of
 			// whose writes happen before the load, has the value the component has at the header
